@@ -1374,6 +1374,18 @@ Theorem source_diffusion_renumbering (n : nat) (p : nat -> nat) (A : nat -> nat 
 Proof. exact (NpEquivariance.source_diffusion_renumbering n p A s init k alpha). Qed.
 Print Assumptions source_diffusion_renumbering.
 
+(** class-probability rows (probs_ of BaseClustering._secondary_outputs, Gen/NpSecondary.v, from clustering/base.py): the row of
+    node i of the renumbered graph is the row of node p i of the original graph, with the same number of columns *)
+From SKN Require Import Gen.NpSecondary Proofs.NpSecondaryProofs.
+Theorem source_secondary_probs_renumbering (n : nat) (p : nat -> nat) (A : nat -> nat -> R) (l : list Z) :
+  List.length l = n -> perm_on n p ->
+  exists K f' f,
+    rvdenote (env_sec n (pmat p A) (plab n p l)) src_secondary_probs = Some (WM n K f') /\
+    rvdenote (env_sec n A l) src_secondary_probs = Some (WM n K f) /\
+    forall i c, f' i c = f (p i) c.
+Proof. exact (NpEquivariance.source_secondary_probs_renumbering n p A l). Qed.
+Print Assumptions source_secondary_probs_renumbering.
+
 Example c02_nonvacuous_source_renumbering :
   perm_on 3 (fun i => match i with O => 2 | 1 => 0 | _ => 1 end)%nat /\ labels_ok 3 (0 :: 2 :: 0 :: nil)%Z /\ init_ok (@WNone R).
 Proof.
